@@ -35,7 +35,7 @@ MANIFEST = {
             "rule decides the protocol shape only. POSIX O_CREAT|O_EXCL "
             "atomicity is trusted.",
     "technique": "CFG reachability + def-use + typestate rule over "
-                 "rename_and_write / _rename_psyir / _new_name",
+                 "rename_and_write / _rename_psyir / _new_name + refusal-weakening check against the reviewed guard snapshot",
 }
 PG = "src/psyclone/psyGen.py"
 WRITE_MODES = ("w", "a", "x", "+")
